@@ -1,7 +1,9 @@
 """C11 Channel broadcasts every message to every subscribed consumer, in order, once."""
+from .. import mixed
 from ..faults import sweep
 
 ID = "C11"
+MIXED_SHARE = 0.2
 LEVEL = "fault_enumeration"
 RULE = ("seeded scenarios of 1-3 producers (unique values), 1-4 consumers (`async for` with "
         "optional limit / slow body, single `await channel`), late subscribers, optional closer "
@@ -34,6 +36,9 @@ def _gap(rng, ops, p=0.55):
 
 
 def generate(rng, tier):
+    if rng.random() < MIXED_SHARE:
+        # the primitive inside blocks of the other primitives (usimdst/mixed.py)
+        return mixed.generate(rng, ID)
     actors = []
     for p in range(rng.randint(1, 3)):
         ops = []
@@ -90,6 +95,8 @@ def generate(rng, tier):
 
 def explore(case, base, rng, tier, one):
     victims = [a["name"] for a in case["scenario"]["actors"] if a["name"] != "zclose"]
+    if case.get("family") == "mixed":
+        victims = mixed.victims(case)
     sweep(case, base, rng, one, victims, ("cancel", "interrupt", "close"),
           BUDGET[tier]["per_group"], pairs=BUDGET[tier]["per_group"])
 
@@ -148,6 +155,8 @@ def check(rec):
 
     for ev in rec.trace:
         tick, act, now, actor, kind = ev[:5]
+        if kind[:3] in ("put", "get", "ite", "clo") and len(ev) > 5 and ev[5] != "C":
+            continue                     # another stream of a mixed program
         if last_time is not None and now != last_time:
             for name, sub in [(n, x) for n, stack in subs.items() for x in stack]:
                 if sub["waiting"]:
